@@ -112,6 +112,10 @@ pub struct Tracer {
     pub unknown_stops: BTreeMap<i32, i32>,
     pub hang: bool,
     pub watchdog_s: u32,
+    /// the last time a client got somewhere: a call the scheduler cares about, an operation marker, an exit. A
+    /// thread that spins in user space while a runtime thread of the same client wakes up every few seconds produces
+    /// ptrace events for ever but no progress.
+    pub last_progress: std::time::Instant,
     pub step: usize,
     pub passthrough: u64,
     pub error: Option<String>,
@@ -136,6 +140,7 @@ impl Tracer {
             unknown_stops: BTreeMap::new(),
             hang: false,
             watchdog_s: 45,
+            last_progress: std::time::Instant::now(),
             step: 0,
             passthrough: 0,
             error: None,
@@ -334,6 +339,7 @@ impl Tracer {
             if sys.nr == SYS_WRITE && sys.path.as_deref() == Some(self.clients[c].out_path.as_str()) {
                 let buf = read_mem(pid, sys.args[1], (sys.args[2] as usize).min(64));
                 let txt = String::from_utf8_lossy(&buf).to_string();
+                self.last_progress = std::time::Instant::now();
                 if let Some(rest) = txt.strip_prefix("B ") {
                     self.clients[c].cur_op = rest.trim().split_whitespace().next().and_then(|x| x.parse().ok());
                 } else if txt.starts_with("E ") {
@@ -358,6 +364,7 @@ impl Tracer {
             }
             let rel = self.relevant(&sys);
             if rel {
+                self.last_progress = std::time::Instant::now();
                 for p in [&sys.path, &sys.path2].into_iter().flatten() {
                     if let Some(i) = p.find("/tmp/.tmp") {
                         let name = p[i + 5..].to_string();
@@ -433,6 +440,7 @@ impl Tracer {
 
     /// Grant a parked syscall with an action.
     pub fn grant(&mut self, c: usize, tid: i32, action: Action) {
+        self.last_progress = std::time::Instant::now();
         let sys = self.clients[c].threads[&tid].cur.clone().unwrap_or_default();
         // ordinal of this call among the client's granted relevant syscalls
         let ord = self.events.iter().filter(|e| e.client == c).count();
@@ -638,6 +646,10 @@ impl Tracer {
 
     pub fn pump(&mut self) -> Pump {
         loop {
+            if self.last_progress.elapsed().as_secs() > self.watchdog_s as u64 + 5 {
+                self.hang = true;
+                return Pump::Hang;
+            }
             let (_released, held) = self.service_exit_held();
             let any_granted = self.clients.iter().any(|c| c.live() && c.threads.values().any(|t| t.state == TState::Granted));
             let live: Vec<usize> = self.clients.iter().filter(|c| c.live()).map(|c| c.idx).collect();
